@@ -678,26 +678,20 @@ func ruleLowEntropyTables(c *RC) {
 			c.Bad(key, bp.Pos(), "buildLowEntropyParams rejects documented mode %d", mode)
 			continue
 		}
-		// read the literal behind result 0
+		// the struct behind result 0, as folded (literal or table entry)
 		var got [2]int64
-		if ld, ok := retVal(r.Ret, 0).(*ssa.UnOp); ok {
-			if a, ok := ld.X.(*ssa.Alloc); ok {
-				for _, ref := range *a.Referrers() {
-					if fa, ok := ref.(*ssa.FieldAddr); ok {
-						fv, _ := fieldOfAddr(fa)
-						for _, u := range *fa.Referrers() {
-							if st, ok := u.(*ssa.Store); ok {
-								if k, ok := constInt(st.Val); ok {
-									switch fv.Name() {
-									case "sourceBytesPerChunk":
-										got[0] = k
-									case "halfMaskOnes":
-										got[1] = k
-									}
-								}
-							}
-						}
-					}
+		if st, ok := bp.Signature.Results().At(0).Type().Underlying().(*types.Struct); ok && r.Results[0].fields != nil {
+			for i := 0; i < st.NumFields(); i++ {
+				fv, has := r.Results[0].fields[i]
+				if !has || !fv.known {
+					continue
+				}
+				k, _ := constant.Int64Val(fv.v)
+				switch st.Field(i).Name() {
+				case "sourceBytesPerChunk":
+					got[0] = k
+				case "halfMaskOnes":
+					got[1] = k
 				}
 			}
 		}
